@@ -378,3 +378,18 @@ package csproto
 //@   ensures  implies(err == nil && d.mode != DecoderModeFast && len(s) > 0, gocv_fresh(s))
 //@   ensures  implies(lenDelimTooLong(d.p, old(d.offset)) || varintTruncated(d.p, old(d.offset)), err != nil)
 //@   modifies d.offset
+
+// Skip: the field start fs is recomputed from the tag (key length), so the contract speaks
+// about the situation DecodeTag leaves behind for a minimally encoded key (keyBefore).
+// Safety and the representation invariant hold for arbitrary arguments and bytes.
+
+//@ func (d *Decoder) Skip(tag int, wt WireType) (b []byte, err error)
+//@   requires decOK(d)
+//@   use lemma_key_before(d.p, d.offset, tag, wt)
+//@   ensures  decOK(d)
+//@   ensures  implies(keyBefore(d.p, old(d.offset), tag, wt) && fieldStrict(d.p, old(d.offset)-keyLen(tag, wt)), err == nil)
+//@   ensures  implies(keyBefore(d.p, old(d.offset), tag, wt) && err == nil, fieldOK(d.p, old(d.offset)-keyLen(tag, wt)) && d.offset == fieldEnd(d.p, old(d.offset)-keyLen(tag, wt)))
+//@   ensures  implies(keyBefore(d.p, old(d.offset), tag, wt) && err == nil, gocv_view(b, d.p, old(d.offset)-keyLen(tag, wt), d.offset))
+//@   ensures  implies(keyBefore(d.p, old(d.offset), tag, wt) && fieldTruncated(d.p, old(d.offset)-keyLen(tag, wt)), err != nil)
+//@   ensures  implies(wt != WireTypeVarint && wt != WireTypeFixed64 && wt != WireTypeLengthDelimited && wt != WireTypeFixed32, err != nil)
+//@   modifies d.offset
